@@ -397,7 +397,11 @@ func BuildBlob(tarBytes []byte, c BuildCfg) (*Built, error) {
 	case 1:
 		opts = append(opts, estargz.WithCompression(&zstdComp{&zstdchunked.Compressor{CompressionLevel: zstd.SpeedDefault}, &zstdchunked.Decompressor{}}))
 	default:
-		opts = append(opts, estargz.WithCompressionLevel(1))
+		lvl := 1
+		if c.Level == -100 {
+			lvl = 0 // gzip.NoCompression: payload stored literally
+		}
+		opts = append(opts, estargz.WithCompressionLevel(lvl))
 	}
 	b, err := estargz.Build(io.NewSectionReader(bytes.NewReader(tarBytes), 0, int64(len(tarBytes))), opts...)
 	if err != nil {
